@@ -50,10 +50,11 @@ pub fn get() -> FunctionDefinitions {
                                 Some(vec.into())
                             }
                             Some(JsonValue::String(str)) => {
-                                let str = if size > str.len() {
+                                let count = str.chars().count();
+                                let str: String = if size > count {
                                     str
                                 } else {
-                                    str[size - 1..].into()
+                                    str.chars().skip(count - size).collect()
                                 };
                                 Some(str.into())
                             }
